@@ -46,6 +46,13 @@ fn odd_names() -> Vec<String> {
         v.push(s.clone());
         v.push(s.replace("subscriptions", "topics"));
     }
+    // long malformed values made of multi-byte characters, at every alignment of the characters against byte offsets
+    // (error messages that quote the value must not cut it in the middle of a character)
+    for lead in ["", "x", "xy", "topics/", "projects/p/topics/"] {
+        for (ch, n) in [("日", 100), ("日", 200), ("é", 200), ("😀", 80), ("日", 1500)] {
+            v.push(format!("{}{}", lead, ch.repeat(n)));
+        }
+    }
     v.sort();
     v.dedup();
     v
@@ -73,9 +80,12 @@ fn cases() -> Vec<Case> {
         v.push(Case::Name("create-sub.name@t1", n.to_string()));
     }
     for rpc in ["ack", "modify", "stream-ack", "stream-modify"] {
-        for id in ["", "x", "-1", "1.5", "18446744073709551616", " 1", "1 ", "+1", "0x1", "١", "1\u{0}", "99999999999999999999999999999"] {
+        let long_ids: Vec<String> = ["", "1", "12"].iter().map(|lead| format!("{}{}", lead, "日".repeat(120))).collect();
+        let mut ids: Vec<String> = ["", "x", "-1", "1.5", "18446744073709551616", " 1", "1 ", "+1", "0x1", "١", "1\u{0}", "99999999999999999999999999999"].iter().map(|s| s.to_string()).collect();
+        ids.extend(long_ids);
+        for id in ids {
             for pos in 0..3 {
-                v.push(Case::AckId(rpc, id.to_string(), pos));
+                v.push(Case::AckId(rpc, id.clone(), pos));
             }
         }
     }
